@@ -524,6 +524,18 @@ func (vc *VC) libCall(fr *Frame, n *Node, callee *ssa.Function, call *ssa.CallCo
 	case name == "fmt.Sprintf", name == "fmt.Sprint", name == "fmt.Sprintln":
 		r := vc.fresh(fr.prefix+".sprintf", "Int")
 		n.assume(vc.srt.typeFact(r, types.Typ[types.String]))
+		if name == "fmt.Sprintf" {
+			if f, ok := constString(call.Args[0]); ok {
+				rec := sprintfRec{term: r, format: f}
+				if elems, ok := vc.varargElems(fr, n, call.Args[1]); ok {
+					rec.args = elems
+				}
+				vc.sprintfs = append(vc.sprintfs, rec)
+				if lit, _ := splitFormat(f); strings.Trim(lit, "\x00") != "" {
+					n.assume(sNot(sEq(r, "0")))
+				}
+			}
+		}
 		set(r)
 		return
 	case name == "fmt.Printf", name == "fmt.Println", name == "fmt.Print", name == "fmt.Fprintf", name == "fmt.Fprintln", name == "fmt.Fprint":
@@ -650,6 +662,11 @@ func (vc *VC) libCall(fr *Frame, n *Node, callee *ssa.Function, call *ssa.CallCo
 			fnm := "contains$" + needle
 			vc.declareFun(fnm, []string{"Int"}, "Bool")
 			set(app(smtName(fnm), args[0]))
+			return
+		}
+	case name == "strings.HasSuffix":
+		if needle, ok := constString(call.Args[1]); ok {
+			set(vc.suffixTerm(needle, args[0]))
 			return
 		}
 	case name == "(*errors.errorString).Error":
